@@ -106,6 +106,9 @@ def spec_call(ex, ev: Eval, node: ast.Call, fname: str):
         return V(v.t.v, z3.Select(dict_val(v), coerce_to(ev.expr(a[1]), v.t.k).z))
     if fname == "defined":  # defined("name"): the local is bound on this path
         return V(BOOL, z3.BoolVal(ast.literal_eval(a[0]) in ev.st.vars))
+    if fname == "pow2":
+        from .expr import POW2
+        return V(INT, POW2(ev.expr(a[0]).z))
     if fname in ("up", "lo"):
         from .expr import LO, UP
         return V(INT, (UP if fname == "up" else LO)(ev.expr(a[0]).z))
